@@ -28,6 +28,7 @@ type world struct {
 	written int            // changelog entries expected
 	hist    map[string]int // "op key" -> how many times this store's own history contains it
 	deleted bool
+	name    string
 	dirty   bool // written after its caches were warmed: default-consistency answers may be stale (not judged)
 }
 
@@ -101,7 +102,7 @@ func group(c *vk.Ctx, srv *drive.Srv, sname string, v2 bool, di, g int) {
 		if gc == nil {
 			continue
 		}
-		w := &world{state: map[string]*openfgav1.TupleKey{}, hist: map[string]int{}}
+		w := &world{state: map[string]*openfgav1.TupleKey{}, hist: map[string]int{}, name: fmt.Sprintf("c16-%d-%d-%d", di, g, k)}
 		var stored []*openfgav1.TupleKey
 		for j, tk := range gc.Tuples {
 			if j%3 == 2 && ref.NewModel(gc.Model, ref.TemplateCondEval).ValidForRead(tk) {
@@ -397,6 +398,33 @@ func group(c *vk.Ctx, srv *drive.Srv, sname string, v2 bool, di, g int) {
 		token = resp.GetContinuationToken()
 		if token == "" {
 			break
+		}
+	}
+	// the same through the name filter (a different query shape in the SQL backends)
+	for _, w := range ws {
+		name := w.name
+		if name == "" {
+			continue
+		}
+		resp, err := srv.S.ListStores(ctx, &openfgav1.ListStoresRequest{Name: name})
+		if err != nil {
+			continue
+		}
+		c.Count("liststores_by_name_after_delete", 1)
+		listed := false
+		for _, st := range resp.GetStores() {
+			if st.GetId() == w.p.Store {
+				listed = true
+			}
+			if st.GetName() != name {
+				c.Violation("", "liststores-name-filter|"+sname, fmt.Sprintf("ListStores(name=%q) lists store %s named %q", name, st.GetId(), st.GetName()), nil)
+			}
+		}
+		if w.deleted && listed {
+			c.Violation("", "liststores-by-name-after-delete|"+sname, fmt.Sprintf("ListStores(name=%q) still lists the deleted store %s", name, w.p.Store), nil)
+		}
+		if !w.deleted && !listed && resp.GetContinuationToken() == "" {
+			c.Violation("", "liststores-by-name-missing|"+sname, fmt.Sprintf("ListStores(name=%q) does not list the existing store %s", name, w.p.Store), nil)
 		}
 	}
 	queryAll("after-delete-store")
